@@ -76,24 +76,87 @@ def describe(case):
 # ---------------------------------------------------------------------------------------------
 # Known-finding matchers: each recognises exactly one defect class of the unchanged tree by the
 # failing input shape AND the way the output deviates.  Anything else stays a VIOLATION.
+# One file can show several of the classes at once, so the matchers share `_analyse`: a case is only
+# matched if EVERY deviation it shows is accounted for by the known classes.
+
+def _analyse(case):
+  """
+  Account for the deviations of one recorded case.  Returns None if the result is not a single table
+  of equally long columns, else a dict:
+    first      leading rows that have cells but were skipped as a 'preamble' (0 if that did not happen)
+    lost       non-empty cells of those rows
+    width      the width the importer took from the 100-row sample if a later row is wider, else None
+    missing    number of columns (that still have cells after `first`, below `width`) not returned
+    changed    [(row, col, want, got)] cells returned with another token (columns paired by position)
+    preamble_col  True if a column disappeared because its only cells were in the skipped rows
+    cut_col    True if a column disappeared because it lies beyond `width`
+  """
+  inp, grid, out = case["inp"], case["grid"], case["out"]
+  if case["exc"] or out["nt"] != 1 or len(set(out["lens"])) != 1:
+    return None
+  rows = kind_rows(case)
+  nrows, nout, hdr = grid["n"], out["lens"][0], inp["headers"]
+  # (a) the preamble: rows before the first row whose last non-empty cell reaches the most common
+  #     cell count minus one (import_utils.find_first_non_empty_row), if any of them has a cell
+  first = 0
+  if not hdr:
+    modal = _modal(rows[:SAMPLE])
+    i = next((i for i, r in enumerate(rows[:SAMPLE]) if _span(r) >= modal - 1), None)
+    if i and any(_count(r) for r in rows[:i]) and nout == nrows - i:
+      first = i
+  # (b) the sampled width, if a row beyond the sample is wider than every sampled row
+  width = None
+  if not hdr:
+    ws = max([0] + [_span(r) for r in rows[first:SAMPLE]])
+    wl = max([0] + [_span(r) for r in rows[SAMPLE:]])
+    if wl > ws:
+      width = ws
+  cells = _cells(grid["cols"])
+  lost = sorted(p for p in cells if hdr < p[0] <= first)
+  req_all = _required(grid)
+  req = sorted(set(c - 1 for (k, c) in cells if k > first or k <= hdr))
+  sig = _significant(out)
+  res = {"first": first, "lost": lost, "width": width, "preamble_col": len(req) < len(req_all),
+         "cut_col": False, "missing": 0, "changed": []}
+  if width is not None and len(sig) < len(req):
+    # the row taken as header counts in full, so the cut may lie a little beyond `width`
+    wmax = max([width] + [len(r) for r in rows[:SAMPLE]])
+    for w in range(width, wmax + 1):
+      if len([c for c in req if c < w]) == len(sig):
+        res["cut_col"] = True
+        req = [c for c in req if c < w]
+        break
+  res["missing"] = len(req) - len(sig)
+  got = _cells(out["cols"])
+  shift = nout - nrows
+  for j in range(min(len(req), len(sig))):
+    for (k, c), t in cells.items():
+      if c - 1 == req[j] and k > max(first, hdr) and got.get((k + shift, sig[j] + 1)) != t:
+        res["changed"].append((k, c, t, got.get((k + shift, sig[j] + 1))))
+  return res
+
+
+def _blank_lost(out, change):
+  """The text of kind x is " x_r<r>_c<c>"; it came back without its leading blank and the importer
+  reports skipinitialspace."""
+  _k, _c, want, got = change
+  return bool(out.get("skip")) and want[0] == "x" and got is not None and \
+    got[0] == "?" + ascii("x_r%d_c%d" % (want[1], want[2]))
+
+
+def _explained(case, res):
+  return res is not None and res["missing"] == 0 and all(_blank_lost(case["out"], ch) for ch in res["changed"])
+
 
 def wide_row_after_sample(v):
   """headers=false and a row beyond the 100-row sample is wider than every sampled row: the columns
   beyond the sampled width are lost (expand_headers only sees the sample; get_table_data zips every
   row against len(headers))."""
   case = v["case"]
-  if v["clause"] != "C32.kept" or case["inp"]["headers"] or case["exc"] or case["out"]["nt"] != 1:
+  if v["clause"] != "C32.kept" or case["inp"]["headers"]:
     return False
-  rows = kind_rows(case)
-  ws = max([0] + [_span(r) for r in rows[:SAMPLE]])
-  wl = max([0] + [_span(r) for r in rows[SAMPLE:]])
-  if wl <= ws:
-    return False
-  # exactly the columns beyond the sampled width are missing (the sampled width is the widest
-  # sampled row, counted up to its last non-empty cell or - for the row taken as header - in full)
-  nsig = len(_significant(case["out"]))
-  return any(nsig == len([c for c in _required(case["grid"]) if c < w])
-             for w in range(ws, min(wl, max(len(r) for r in rows[:SAMPLE]) + 1)))
+  res = _analyse(case)
+  return _explained(case, res) and res["cut_col"]
 
 
 def blank_first_line_narrow_sample(v):
@@ -108,47 +171,29 @@ def blank_first_line_narrow_sample(v):
 
 def sparse_leading_rows_skipped(v):
   """headers=false and the file starts with rows that have cells but fewer (by 2 or more) than the
-  most common row of the sample: find_first_non_empty_row skips them as a preamble."""
+  most common row of the sample: find_first_non_empty_row skips them as a preamble (a column whose
+  only cells are in those rows disappears with them)."""
   case = v["case"]
-  if v["clause"] not in ("C32.rows", "C32.cell") or case["inp"]["headers"] or case["exc"] \
-     or case["out"]["nt"] != 1:
+  if v["clause"] not in ("C32.rows", "C32.cell", "C32.kept") or case["inp"]["headers"]:
     return False
-  rows = kind_rows(case)
-  modal = _modal(rows[:SAMPLE])
-  first = next((i for i, r in enumerate(rows[:SAMPLE]) if _span(r) >= modal - 1), None)
-  if not first or not any(_count(r) for r in rows[:first]):
+  res = _analyse(case)
+  if res is None or not res["first"]:
     return False
-  out = case["out"]
-  if any(n != len(rows) - first for n in out["lens"]):
-    return False
-  # apart from the skipped rows every cell is where it belongs
-  want = _cells([case["grid"]["cols"][c] for c in _required(case["grid"])], -first)
-  got = _cells([out["cols"][j] for j in _significant(out)])
-  return all(got.get(p) == t for p, t in want.items() if p[0] >= 1)
+  if v["clause"] == "C32.rows":
+    return True
+  if v["clause"] == "C32.kept":
+    return _explained(case, res) and res["preamble_col"]
+  return _explained(case, res) and bool(res["lost"])
 
 
 def sniffed_skipinitialspace(v):
-  """every delimiter of the first line is followed by a blank: csv.Sniffer reports skipinitialspace
-  and the importer applies it although delimiter and quote character were given explicitly, so the
-  leading blank of cells is lost."""
+  """the importer reports skipinitialspace=true (csv.Sniffer's guess, applied although delimiter and
+  quote character were given explicitly) and the only change is that cells lost their leading blank."""
   case = v["case"]
-  if v["clause"] != "C32.cell" or case["exc"] or case["out"]["nt"] != 1:
+  if v["clause"] != "C32.cell" or not case["out"].get("skip"):
     return False
-  rows = kind_rows(case)
-  first = rows[0] if rows else []
-  if len(first) < 2 or any(k != "x" for k in first[1:]):
-    return False
-  out, grid = case["out"], case["grid"]
-  if len(set(out["lens"])) != 1:
-    return False
-  shift = out["lens"][0] - grid["n"]
-  want = _cells([grid["cols"][c] for c in _required(grid)], shift)
-  got = _cells([out["cols"][j] for j in _significant(out)])
-  bad = [(p, t) for p, t in want.items() if p[0] >= 1 and got.get(p) != t]
-  def stripped(p, t):
-    # the text of kind x is " x_r<r>_c<c>"
-    return t[0] == "x" and got.get(p, ("",))[0] == "?" + ascii("x_r%d_c%d" % (t[1], t[2]))
-  return bool(bad) and all(stripped(p, t) for p, t in bad)
+  res = _analyse(case)
+  return _explained(case, res) and bool(res["changed"])
 
 
 MATCHERS = {
